@@ -682,7 +682,11 @@ class Parser:
         value = None
         text = str(self._current_token)
         if self._current_token.is_a(TokenTypes.NUMBER):
-            value = int(text) if Lex.is_int(text) else float(text)
+            try:
+                value = int(text) if Lex.is_int(text) else float(text)
+            except ValueError:
+                # Thousands of digits: Python refuses to convert them.
+                self.token_error('Number has too many digits: "{:.20}..."')
         elif self._current_token.is_a(TokenTypes.LITERAL_STRING):
             value = str(self._current_token)
         elif self._current_token.is_a(TokenTypes.TIME_PATTERN):
